@@ -453,6 +453,7 @@ func (reg *Reg) blobPutUploadChunked(ctx context.Context, r ref.Ref, d descripto
 	chunkURL := *putURL
 	retryLimit := 10 // TODO: pull limit from reghttp
 	retryCur := 0
+	stallCur := 0
 	var err error
 
 	for !finalChunk || chunkStart < bufStart+int64(len(bufBytes)) {
@@ -553,6 +554,15 @@ func (reg *Reg) blobPutUploadChunked(ctx context.Context, r ref.Ref, d descripto
 			}
 			rangeEnd, err := blobUploadCurBytes(httpResp)
 			if err == nil {
+				if resp.HTTPResponse().StatusCode == 202 && rangeEnd+1 <= chunkStart {
+					// the chunk was accepted but the upload did not advance, do not resend it forever
+					stallCur++
+					if stallCur > retryLimit {
+						return d, fmt.Errorf("failed to send blob (chunk), ref %s: upload is not making progress, range end %d", r.CommonName(), rangeEnd)
+					}
+				} else {
+					stallCur = 0
+				}
 				chunkStart = rangeEnd + 1
 			} else {
 				chunkStart += int64(chunkSize)
